@@ -449,10 +449,164 @@ Proof.
   rewrite steps_gcd_loop. apply by_fast_sound; [reflexivity | exact H].
 Qed.
 
-Theorem BY_bound_small : forall l, 0 <= l <= 8 -> BY_bound l.
+Theorem BY_bound_small : forall l, 0 <= l <= 9 -> BY_bound l.
 Proof.
   intros l Hl.
-  assert (H : l = 0 \/ l = 1 \/ l = 2 \/ l = 3 \/ l = 4 \/ l = 5 \/ l = 6 \/ l = 7 \/ l = 8) by lia.
+  assert (H : l = 0 \/ l = 1 \/ l = 2 \/ l = 3 \/ l = 4 \/ l = 5 \/ l = 6 \/ l = 7 \/ l = 8 \/ l = 9) by lia.
   repeat (destruct H as [-> | H]); try subst l;
     apply BY_check_sound; vm_compute; reflexivity.
+Qed.
+
+(** ** gcp2 and the 2-power stripping *)
+
+Lemma gcp2_aux_spec : forall n a b, exists a' b',
+  0 < gcp2_aux n a b /\ a = gcp2_aux n a b * a' /\ b = gcp2_aux n a b * b' /\
+  (Z.odd a' || Z.odd b' = true \/ gcp2_aux n a b = 2 ^ Z.of_nat n).
+Proof.
+  induction n as [|n IH]; intros a b.
+  - exists a, b. change (gcp2_aux 0 a b) with 1.
+    split; [lia|]. split; [lia|]. split; [lia|]. right. reflexivity.
+  - change (gcp2_aux (S n) a b)
+      with (if Z.odd a || Z.odd b then 1 else 2 * gcp2_aux n (a / 2) (b / 2)).
+    destruct (Z.odd a || Z.odd b) eqn:E.
+    + exists a, b. split; [lia|]. split; [lia|]. split; [lia|]. left. exact E.
+    + apply Bool.orb_false_iff in E. destruct E as [Ea Eb].
+      apply odd_false_mod2 in Ea. apply odd_false_mod2 in Eb.
+      destruct (IH (a / 2) (b / 2)) as (a' & b' & Hp & Ha & Hb & Hc).
+      exists a', b'. split; [lia|]. split; [|split].
+      * rewrite (half_even a Ea) at 1. rewrite Ha at 1. ring.
+      * rewrite (half_even b Eb) at 1. rewrite Hb at 1. ring.
+      * destruct Hc as [Hc | Hc]; [left; exact Hc | right].
+        rewrite Hc, Nat2Z.inj_succ, Z.pow_succ_r by lia. reflexivity.
+Qed.
+
+Lemma strip_spec : forall l a b, 0 <= l -> Z.abs a <= 2^l -> Z.abs b <= 2^l ->
+  a <> 0 \/ b <> 0 ->
+  exists a1 b1, 0 < gcp2 l a b /\ a = gcp2 l a b * a1 /\ b = gcp2 l a b * b1 /\
+    a / gcp2 l a b = a1 /\ b / gcp2 l a b = b1 /\
+    Z.odd a1 || Z.odd b1 = true /\ Z.abs a1 <= 2^l /\ Z.abs b1 <= 2^l.
+Proof.
+  intros l a b Hl Ha Hb Hnz. unfold gcp2.
+  destruct (gcp2_aux_spec (Z.to_nat l) a b) as (a1 & b1 & Hp & Ea & Eb & Hc).
+  rewrite Z2Nat.id in Hc by exact Hl.
+  set (p := gcp2_aux (Z.to_nat l) a b) in *.
+  exists a1, b1.
+  split; [exact Hp|]. split; [exact Ea|]. split; [exact Eb|].
+  split; [rewrite Ea at 1; rewrite Z.mul_comm; apply Z.div_mul; lia|].
+  split; [rewrite Eb at 1; rewrite Z.mul_comm; apply Z.div_mul; lia|].
+  assert (Habs : forall q x y, 0 < q -> x = q * y -> Z.abs y <= Z.abs x).
+  { intros q x y Hq ->. rewrite Z.abs_mul. nia. }
+  assert (Habs1 : forall q x y, 0 < q -> x = q * y -> Z.abs x <= q -> Z.abs y <= 1).
+  { intros q x y Hq -> Hx. rewrite Z.abs_mul in Hx. nia. }
+  pose proof (Habs p a a1 Hp Ea) as Ha1.
+  pose proof (Habs p b b1 Hp Eb) as Hb1.
+  split; [|lia].
+  destruct Hc as [Hc | Hc]; [exact Hc|].
+  assert (Ha2 : Z.abs a1 <= 1) by (apply (Habs1 p a a1 Hp Ea); lia).
+  assert (Hb2 : Z.abs b1 <= 1) by (apply (Habs1 p b b1 Hp Eb); lia).
+  assert (Hnz1 : a1 <> 0 \/ b1 <> 0).
+  { destruct Hnz as [Hnz | Hnz]; [left | right]; intro E0; apply Hnz;
+      [rewrite Ea | rewrite Eb]; rewrite E0; ring. }
+  assert (Hcases : a1 = 1 \/ a1 = -1 \/ b1 = 1 \/ b1 = -1) by lia.
+  destruct Hcases as [-> | [-> | [-> | ->]]]; simpl; rewrite ?Bool.orb_true_r; reflexivity.
+Qed.
+
+Lemma if_swap_0 : forall x y, if_swap 0 x y = (x, y).
+Proof. intros. unfold if_swap. f_equal; ring. Qed.
+Lemma if_swap_1 : forall x y, if_swap 1 x y = (y, x).
+Proof. intros. unfold if_swap. f_equal; ring. Qed.
+
+Lemma steps_gcd_00 : forall n, exists delta', steps_gcd n (1, 0, 0) = (delta', 0, 0).
+Proof.
+  intros n. rewrite steps_gcd_loop. apply loop_gcd_g0.
+Qed.
+
+(** ** Correctness of _gcd / gcd / lcm, given the iteration bound *)
+
+Lemma gcd_loop_result : forall l f g, BY_bound l -> Z.odd f = true ->
+  Z.abs f <= 2^l -> Z.abs g <= 2^l ->
+  exists delta' f', steps_gcd (niter l) (1, f, g) = (delta', f', 0) /\
+    Z.odd f' = true /\ Z.abs f' = Z.gcd f g.
+Proof.
+  intros l f g HBY Hf Hfr Hgr.
+  pose proof (HBY f g Hf Hfr Hgr) as Hg0.
+  pose proof (gcd_inv_steps f g (niter l) Hf) as Hinv.
+  destruct (steps_gcd (niter l) (1, f, g)) as [[delta' f'] g'].
+  simpl in Hg0. subst g'. destruct Hinv as (Hf' & Hg' & _ & _).
+  exists delta', f'. split; [reflexivity|]. split; [exact Hf'|].
+  rewrite <- Hg'. symmetry. apply Z.gcd_0_r.
+Qed.
+
+Lemma gcd_raw_nonzero : forall l a b, BY_bound l -> 0 <= l ->
+  Z.abs a <= 2^l -> Z.abs b <= 2^l -> a <> 0 \/ b <> 0 ->
+  Z.abs (gcd_raw l a b) = Z.gcd a b.
+Proof.
+  intros l a b HBY Hl Ha Hb Hnz.
+  destruct (strip_spec l a b Hl Ha Hb Hnz) as (a1 & b1 & Hp & Ea & Eb & Da & Db & Hodd & Ha1 & Hb1).
+  unfold gcd_raw. rewrite Da, Db.
+  set (p := gcp2 l a b) in *.
+  assert (Hfin : forall f g, Z.odd f = true -> Z.abs f <= 2^l -> Z.abs g <= 2^l ->
+            Z.gcd f g = Z.gcd a1 b1 ->
+            Z.abs (let '(_, f', _) := steps_gcd (niter l) (1, f, g) in p * f') = Z.gcd a b).
+  { intros f g Hf Hfr Hgr Hgcd.
+    destruct (gcd_loop_result l f g HBY Hf Hfr Hgr) as (d' & f' & -> & _ & Hab).
+    rewrite Z.abs_mul, Hab, Hgcd, (Z.abs_eq p) by lia.
+    rewrite <- Z.gcd_mul_mono_l_nonneg by lia. rewrite <- Ea, <- Eb. reflexivity. }
+  destruct (Z.odd a1) eqn:Oa.
+  - apply odd_mod2 in Oa as Ma. rewrite Ma, if_swap_1.
+    apply Hfin; auto.
+  - apply odd_false_mod2 in Oa as Ma. rewrite Ma, if_swap_0.
+    simpl in Hodd. apply Hfin; auto. apply Z.gcd_comm.
+Qed.
+
+Theorem gcd_raw_correct : forall l a b, BY_bound l -> 0 <= l ->
+  Z.abs a <= 2^l -> Z.abs b <= 2^l ->
+  Z.abs (gcd_raw l a b) = Z.gcd a b.
+Proof.
+  intros l a b HBY Hl Ha Hb.
+  destruct (Z.eq_dec a 0) as [Ea | Ea]; [destruct (Z.eq_dec b 0) as [Eb | Eb]|].
+  - (* a = b = 0 *)
+    subst a b. unfold gcd_raw. rewrite !Zdiv_0_l. rewrite Zmod_0_l, if_swap_0.
+    destruct (steps_gcd_00 (niter l)) as [d' ->]. rewrite Z.mul_0_r. reflexivity.
+  - apply gcd_raw_nonzero; auto.
+  - apply gcd_raw_nonzero; auto.
+Qed.
+
+(* gcd: the final abs(., l=l) is a secure comparison on l bits, exact for
+   -2^l <= x < 2^l; inputs of bit length <= l (|a|,|b| < 2^l) guarantee that. *)
+Theorem gcd_correct_partial : forall l a b, BY_bound l -> 0 <= l ->
+  Z.abs a < 2^l -> Z.abs b < 2^l ->
+  gcd_v l a b = Z.gcd a b /\ - 2^l <= gcd_raw l a b < 2^l.
+Proof.
+  intros l a b HBY Hl Ha Hb.
+  assert (H : Z.abs (gcd_raw l a b) = Z.gcd a b) by (apply gcd_raw_correct; auto; lia).
+  split; [exact H|].
+  assert (Hle : Z.gcd a b < 2^l).
+  { destruct (Z.eq_dec a 0) as [Ea | Ea].
+    - subst a. rewrite Z.gcd_0_l. lia.
+    - assert (Z.gcd a b <= Z.abs a); [|lia].
+      apply Z.divide_pos_le; [lia|]. apply Z.divide_abs_r. apply Z.gcd_divide_l. }
+  lia.
+Qed.
+
+Theorem lcm_correct_partial : forall l a b, BY_bound l -> 0 <= l ->
+  Z.abs a <= 2^l -> Z.abs b <= 2^l ->
+  lcm_v l a b = Z.lcm a b.
+Proof.
+  intros l a b HBY Hl Ha Hb.
+  pose proof (gcd_raw_correct l a b HBY Hl Ha Hb) as H.
+  unfold lcm_v, Z.lcm. set (g := gcd_raw l a b) in *.
+  destruct (g =? 0) eqn:Eg.
+  - apply Z.eqb_eq in Eg. rewrite Eg in *. simpl in H.
+    symmetry in H. apply Z.gcd_eq_0 in H. destruct H; subst a b. reflexivity.
+  - apply Z.eqb_neq in Eg. rewrite Z.add_0_r.
+    destruct (Z.gcd_divide_r a b) as [k Hk].
+    remember (Z.gcd a b) as G eqn:EG. clear EG.
+    assert (Hg : g = G \/ g = - G) by lia.
+    destruct Hg as [-> | Hg]; [reflexivity|].
+    rewrite Hg, Hk.
+    rewrite Z.div_mul by lia.
+    replace (k * G) with ((- k) * (- G)) by ring.
+    rewrite Z.div_mul by lia.
+    rewrite Z.mul_opp_r, Z.abs_opp. reflexivity.
 Qed.
